@@ -206,7 +206,11 @@ func cproj(env *zygo.Zlisp, x zygo.Sexp, depth int) any {
 	case *zygo.SexpHash:
 		pairs := []any{}
 		for _, k := range v.KeyOrder {
-			val, err := v.HashGet(env, k)
+			// exact key lookup (HashGet would walk a dotted symbol key as a path)
+			val, err := v.HashGetDefault(nil, k, zygo.SexpEnd)
+			if err == nil && val == zygo.SexpEnd {
+				err = fmt.Errorf("missing")
+			}
 			if err != nil {
 				pairs = append(pairs, []any{cproj(env, k, depth+1), []any{"missing"}})
 				continue
@@ -576,6 +580,7 @@ type gval struct {
 
 type gkey struct {
 	Str bool   `json:"str,omitempty"`
+	Raw bool   `json:"raw,omitempty"` // a symbol made from the name as it is (MakeSymbol), as the JSON decoder does
 	N   []byte `json:"n"`
 }
 
@@ -716,8 +721,15 @@ func (g *gval) build(env *zygo.Zlisp) (zygo.Sexp, error) {
 			}
 			if g.Keys[i].Str {
 				args = append(args, &zygo.SexpStr{S: string(g.Keys[i].N)})
+			} else if name := string(g.Keys[i].N); strings.Contains(name, ".") && !g.Keys[i].Raw {
+				// a dotted symbol as the reader makes it (it carries the path flag)
+				o := evalSafe(env, "(quote "+name+")\n")
+				if o.Kind != "val" {
+					return nil, fmt.Errorf("dotted key %q: %s %s", name, o.Kind, o.Err)
+				}
+				args = append(args, o.Val)
 			} else {
-				args = append(args, env.MakeSymbol(string(g.Keys[i].N)))
+				args = append(args, env.MakeSymbol(name))
 			}
 			args = append(args, x)
 		}
@@ -954,7 +966,9 @@ func newCodecDriver() *codecDriver {
 	}
 	d := &codecDriver{env: zygo.NewZlisp()}
 	d.env.StandardSetup()
-	for _, t := range []string{"(defmap rec)\n", "(defmap Other)\n"} {
+	for _, t := range []string{"(defmap rec)\n", "(defmap Other)\n",
+		// a record type with declared field types, one per scalar type
+		"(struct Typed [(field i:int64) (field u:uint64) (field f:float64) (field s:string) (field b:bool)])\n"} {
 		if o := evalSafe(d.env, t); o.Kind != "val" && o.Kind != "nilres" {
 			fatal("setup %q: %s %s", t, o.Kind, o.Err)
 		}
@@ -1035,7 +1049,7 @@ func codecScalars(r *rng, thorough bool) []cdMember {
 	for _, u := range []uint64{0, 12, 1 << 63, math.MaxUint64} {
 		ms = append(ms, cdMember{gUint(u), "uint"})
 	}
-	ms = append(ms, gridFloats(true)...)
+	ms = append(ms, gridFloats(false)...) // +-Inf and NaN are floats of the language
 	nt := 150
 	if thorough {
 		nt = 1500
@@ -1130,6 +1144,58 @@ func init() {
 			strKeys := i%10 == 9
 			t := cdRandTree(r, scalars, []string{"arr", "hash", "rec", "Other"}, keyNames, strKeys, 3)
 			emit("r", t, "random")
+		}
+		// (e) key names: the names of the reserved members as user keys, dotted symbols
+		one, str := gInt(1), gStr("rec")
+		for _, kn := range []string{"Atype", "zKeyOrder", "a.b", "x.y.z", "Atypes", "zKeyOrder2"} {
+			for _, asStr := range []bool{false, true} {
+				k := gkey{Str: asStr, N: []byte(kn)}
+				a := gkey{N: []byte("a")}
+				lab := "keyname-" + kn
+				emit("e", gHash("hash", []gkey{k}, one), lab)
+				emit("e", gHash("hash", []gkey{k, a}, str, one), lab)
+				emit("e", gHash("hash", []gkey{a, k}, one, gArr(one)), lab)
+				emit("e", gHash("rec", []gkey{k, a}, one, one), lab)
+				emit("e", gArr(gHash("hash", []gkey{a}, gHash("hash", []gkey{k, a}, one, str))), lab)
+			}
+		}
+		// (f) record type names with every kind of character (MakeHash takes any name; the
+		// lexer takes a control character inside a symbol)
+		for _, tn := range []string{"we\"ird", "back\\slash", "a\x01b", "t\u00e9", "two words", "new\nline", "\U0001f600", "q\u2028", "A", "hash2"} {
+			emit("f", gHash(tn, symKeys("a"), one), "typename")
+			emit("f", gHash(tn, symKeys("z", "a"), gStr("s"), one), "typename")
+			emit("f", gArr(gHash("hash", symKeys("r"), gHash(tn, symKeys("x"), one))), "typename")
+			emit("f", gHash(tn, nil), "typename")
+		}
+		// (g) records of a type with declared field types: every field alone over its scalar grid,
+		// and together in both orders
+		typed := map[string][]*gval{
+			"i": {gInt(0), gInt(-1), gInt(math.MaxInt64), gInt(math.MinInt64), gInt(1 << 53)},
+			"u": {gUint(0), gUint(5), gUint(1<<63 - 1), gUint(1 << 63), gUint(math.MaxUint64)},
+			"f": {gFlt(1.0, false), gFlt(2.5, false), gFlt(1e21, false), gFlt(-0.5, true), gFlt(5e-324, false), gFlt(9.223372036854775808e18, false)},
+			"s": {gStr(""), gStr("x\"\n\u00e9"), gStr("\a")},
+			"b": {gBool(true), gBool(false)},
+		}
+		fields := []string{"i", "u", "f", "s", "b"}
+		for _, f := range fields {
+			for _, x := range typed[f] {
+				emit("g", gHash("Typed", symKeys(f), x), "typed-"+f)
+				if f != "s" {
+					emit("g", gArr(gHash("Typed", symKeys(f, "s"), x, gStr("t"))), "typed-"+f)
+				}
+			}
+		}
+		for k := 0; k < 3; k++ {
+			var vals, rev []*gval
+			for _, f := range fields {
+				vals = append(vals, typed[f][k%len(typed[f])])
+			}
+			emit("g", gHash("Typed", symKeys(fields...), vals...), "typed-all")
+			revf := []string{"b", "s", "f", "u", "i"}
+			for _, f := range revf {
+				rev = append(rev, typed[f][k%len(typed[f])])
+			}
+			emit("g", gHash("hash", symKeys("t"), gHash("Typed", symKeys(revf...), rev...)), "typed-all")
 		}
 		return 0
 	})
